@@ -88,6 +88,8 @@ Init ==
 \* effective cost of a value as the policy sees it
 EffC(cost) == IF cost = 0 /\ cfg.costFn # 0 THEN cfg.costFn ELSE cost
 EffCost(v) == EffC(vcost[v]) + cfg.itemSize
+RECURSIVE SumCost(_)
+SumCost(S) == IF S = {} THEN 0 ELSE LET v == CHOOSE x \in S : TRUE IN EffCost(v) + SumCost(S \ {v})
 HashOfK(k) == cfg.hashOf[k]
 ConfOfK(k) == cfg.confOf[k]
 
@@ -387,11 +389,20 @@ Step(e) ==
               \cup FlagS("C03", "ressum" \notin DOMAIN e \/ e.remaining = e.maxcost - e.ressum,
                                "RemainingCost differs from MaxCost minus the costs accounted for the resident keys",
                                IF cfg.coll THEN "F9" ELSE "")
+              \* what is resident fits: accounted costs of the resident keys, plus - for entries held in the map that the
+              \* accounting does not know at all - the cost they were written with
+              \cup Flag("C03", raised \/ cfg.coll \/ "unacc" \notin DOMAIN e \/
+                                 e.ressum + SumCost({e.unacc[i] : i \in DOMAIN e.unacc} \cap DOMAIN vcost) <= e.maxcost,
+                               "the entries held in the map cost more than MaxCost (accounted costs, plus the own cost of entries the accounting does not know) although no overwrite raised a cost and MaxCost was not lowered")
               \cup Flag("C03", raised \/ e.remaining >= 0, "RemainingCost is negative although no overwrite raised a cost and MaxCost was not lowered")
               \* C13
               \cup Flag("C13", cfg.coll \/ ToSet(e.polkeys) = ToSet(e.storekeys), "accounting and map disagree on the resident keys")
               \cup Flag("C13", cfg.coll \/ (iterSet = probeVals /\ Len(e.iter) = Cardinality(iterSet)),
                                "IterValues does not visit exactly the unexpired resident values once each")
+              \* C07: an expired entry that is still in the map hides nobody else from IterValues
+              \cup Flag("C07", cfg.coll \/ probeVals \subseteq iterSet \/
+                                 \A i \in DOMAIN e.probeRaw : e.probeRaw[i][2] = 0 \/ e.probeRaw[i][2] \in probeVals,
+                               "IterValues hides an unexpired entry while an expired one is still in the map")
               \cup Flag("C13", Len(e.storekeys) # 0 \/ Len(e.polkeys) # 0 \/ (e.remaining = e.maxcost /\ Len(e.iter) = 0),
                                "empty cache does not report its full capacity")
               \* C14: eventually reclaimed, once
